@@ -405,7 +405,7 @@ func gateOf(w *World, ctor *Func) (*Func, types.Object) {
 			return true
 		}
 		if callee := calleeOf(info, call); callee != nil {
-			if g := w.byObj[callee]; g != nil && g.Sig().Results().Len() == 2 && typeStr(g.Sig().Results().At(0).Type()) == "ysgo.returnSignature" {
+			if g := w.byObj[callee]; g != nil && isOutputGate(g) {
 				gate = g
 				if id := identOf(as.Lhs[0]); id != nil {
 					sigObj = info.Defs[id]
@@ -1151,4 +1151,22 @@ func c16Accessors(c *Ctx, ctors []*Func) {
 	if n < 3 {
 		c.undecided("C16.R7", "only "+itoa(n)+" reflect accessor calls found")
 	}
+}
+
+// isOutputGate: func(reflect.Type) (E, error) with E an integer-based named type of the same package — the registration
+// gate that classifies a handler's results (recognised by shape: names are free to change).
+func isOutputGate(g *Func) bool {
+	sig := g.Sig()
+	if sig == nil || sig.Params().Len() != 1 || sig.Results().Len() != 2 {
+		return false
+	}
+	if typeStr(sig.Params().At(0).Type()) != "reflect.Type" || typeStr(sig.Results().At(1).Type()) != "error" {
+		return false
+	}
+	n, ok := sig.Results().At(0).Type().(*types.Named)
+	if !ok || n.Obj().Pkg() == nil || n.Obj().Pkg() != g.Pkg.Types {
+		return false
+	}
+	b, ok := n.Underlying().(*types.Basic)
+	return ok && b.Info()&types.IsInteger != 0
 }
